@@ -52,16 +52,16 @@ def resolveFn (t : FnTables) (key : Bytes) : Resolved :=
       | some (.fn run) => .builtin run
       | none => .unknown
 
-def unknownFnMsg (key : Bytes) : Bytes := b "valid \"" ++ key ++ b "\" is not exist, You can call SetValidFn"
+def unknownFnMsg (key : Bytes) : Bytes := b! "valid \"" ++ key ++ b! "\" is not exist, You can call SetValidFn"
 
 /-- what the harness's marker functions write: one clause naming the function that ran -/
 def customClause (marker validName obj field : Bytes) : Bytes :=
-  getJoinValidErrStr obj field [] [b "custom:" ++ marker ++ b ":" ++ validName]
+  getJoinValidErrStr obj field [] [b! "custom:" ++ marker ++ b! ":" ++ validName]
 
 /-- the clause of a violated `required` -/
 def requiredClause (obj field cusMsg : Bytes) : Bytes :=
   if !cusMsg.isEmpty then getJoinValidErrStr obj field [] [cusMsg]
-  else getJoinValidErrStr obj field [] [explainEn, b "it is", requiredB]
+  else getJoinValidErrStr obj field [] [explainEn, b! "it is", requiredB]
 
 /-! ## groups (`abstract.go`) -/
 
@@ -85,7 +85,7 @@ def deepEqScalar : GoVal → GoVal → Option Bool
 
 def memberNames (ms : List Member) : Bytes :=
   ms.flatMap fun m =>
-    (if !m.objName.isEmpty then [DQ] ++ m.objName ++ [46] else [DQ]) ++ m.fieldName ++ [DQ] ++ b ", "
+    (if !m.objName.isEmpty then [DQ] ++ m.objName ++ [46] else [DQ]) ++ m.fieldName ++ [DQ] ++ b! ", "
 
 /-- `either(fieldInfos)` -/
 def eitherClause (ms : List Member) : Bytes :=
@@ -93,7 +93,7 @@ def eitherClause (ms : List Member) : Bytes :=
   | [m] => getJoinFieldErr m.objName m.fieldName eitherValErr
   | _ =>
     if ms.all (fun m => m.val.isZero) then
-      Bytes.trimSuffix (memberNames ms) (b ", ") ++ [SP] ++ explainEn ++ b " they shouldn't all be empty" ++ errEndFlag
+      Bytes.trimSuffix (memberNames ms) (b! ", ") ++ [SP] ++ explainEn ++ b! " they shouldn't all be empty" ++ errEndFlag
     else []
 
 /-- `bothEq(fieldInfos)` -/
@@ -107,7 +107,7 @@ def bothEqClause (ms : List Member) : M Bytes :=
       | some r => pure r
       | none => throw (.unmodelled "DeepEqual on composite values")
     if eqs.all id then pure []
-    else pure (Bytes.trimSuffix (memberNames ms) (b ", ") ++ [SP] ++ explainEn ++ b " they should be equal" ++ errEndFlag)
+    else pure (Bytes.trimSuffix (memberNames ms) (b! ", ") ++ [SP] ++ explainEn ++ b! " they should be equal" ++ errEndFlag)
 
 /-- group the members by (scope, validName), first-appearance order -/
 def groupMembers (ms : List Member) : List (List Member) :=
@@ -145,7 +145,7 @@ def finish (st : WSt) : M CallOut := do
 
 structure StructCfg where
   ext : Ext
-  tag : Bytes := b "valid"
+  tag : Bytes := b! "valid"
   typed : List (Bytes × RM) := []     -- SetRule(rm, obj): keyed by the struct type (its Type().String())
   outer : RM := []                    -- SetRule(rm): `validOnlyOuterObj`
   fns : FnTables := {}
@@ -155,7 +155,7 @@ def keyStr : GoVal → M Bytes
   | .str s => pure s
   | .int _ z => pure (intToBytes z)
   | .uint _ n => pure (natToBytes n)
-  | .bool v => pure (if v then b "true" else b "false")
+  | .bool v => pure (if v then b! "true" else b! "false")
   | _ => throw (.unmodelled "map key kind")
 
 /-- the rule loop of one field. `descend isValidTvKind skipNested cusMsg st` runs `exist(...)` on the field
@@ -202,12 +202,12 @@ def tagGet (tags : List (Bytes × Bytes)) (name : Bytes) : Bytes :=
 /-- "it is nonsupport exist" clause of `exist` on a scalar -/
 def existScalarClause (sn fname cusMsg : Bytes) (v : GoVal) : Bytes :=
   if !cusMsg.isEmpty then getJoinValidErrStr sn fname v.reflectString [cusMsg]
-  else getJoinValidErrStr sn fname v.reflectString [explainEn, b "it is nonsupport", existB]
+  else getJoinValidErrStr sn fname v.reflectString [explainEn, b! "it is nonsupport", existB]
 
 /-- `validate` on a value that is not a struct after pointer stripping -/
 def nonStruct (structName : Bytes) (v : GoVal) (gather : Bool) (st : WSt) : M WSt :=
   if gather then pure st
-  else pure (st.write (getJoinFieldErr structName v.typeName (b "is not struct")))
+  else pure (st.write (getJoinFieldErr structName v.typeName (b! "is not struct")))
 
 /-- the `default:` branch of `exist` -/
 def existScalar (sn fname cusMsg : Bytes) (v : GoVal) (isValidTvKind : Bool) (st : WSt) : WSt :=
@@ -324,18 +324,18 @@ inductive Src where
 /-- `VStruct.Valid(src)` (reached from `Struct`, `StructForFn(s)`, `ValidateStruct`, `NestedStructForRule`) -/
 def structValid (cfg : StructCfg) (src : Src) : M CallOut :=
   match src with
-  | .untypedNil => pure (earlyErr (b "src is nil"))
+  | .untypedNil => pure (earlyErr (b! "src is nil"))
   | .val tstr v =>
     match v.stripPtr with
-    | none => pure (earlyErr (b "src \"" ++ tstr ++ b "\" is nil"))
+    | none => pure (earlyErr (b! "src \"" ++ tstr ++ b! "\" is nil"))
     | some (.slice _ elemT _ es) => do finish (← elemsLoop cfg elemT 0 es {})
     | some (.array _ elemT es) => do finish (← elemsLoop cfg elemT 0 es {})
-    | some (.map _ _ _ es) => do finish (← entriesLoop cfg (b "map[") es {})
+    | some (.map _ _ _ es) => do finish (← entriesLoop cfg (b! "map[") es {})
     | some rv => do finish (← validate cfg [] rv false {})
 
 /-! ### `Var` -/
 
-def validVarFieldName : Bytes := b "validVar"
+def validVarFieldName : Bytes := b! "validVar"
 
 /-- the type test of `VVar.Valid`: strip `[]` / `[N]` prefixes of the type string, then the leaf
 must be string, bool or a numeric kind -/
@@ -348,8 +348,8 @@ def leafSupported : Nat → Bytes → Bool
       | some i => leafSupported fuel (rest.drop (i + 1))
       | none => false
     | _ =>
-      [b "string", b "bool", b "int", b "int8", b "int16", b "int32", b "int64", b "uint", b "uint8", b "uint16",
-       b "uint32", b "uint64", b "float32", b "float64"].contains t
+      [b! "string", b! "bool", b! "int", b! "int8", b! "int16", b! "int32", b! "int64", b! "uint", b! "uint8", b! "uint16",
+       b! "uint32", b! "uint64", b! "float32", b! "float64"].contains t
 
 /-- the rule loop shared by `Var`, `Map` and `Url` (they differ in the `required` test, in which
 structural rules they support, and in the field name shown) -/
@@ -379,7 +379,7 @@ def flatRules (c : FlatCfg) (scope nameForErr nameForClause : Bytes) (v : GoVal)
             { st with members := st.members ++ [{ scope := scope, validName := r, objName := [], fieldName := nameForErr, val := v }] }
         else
           flatRules c scope nameForErr nameForClause v rs
-            (st.write (getJoinFieldErr [] nameForClause (b "valid \"" ++ r ++ b "\" is no support")))
+            (st.write (getJoinFieldErr [] nameForClause (b! "valid \"" ++ r ++ b! "\" is no support")))
       | .custom marker =>
         if c.isEmpty v then flatRules c scope nameForErr nameForClause v rs st
         else flatRules c scope nameForErr nameForClause v rs (st.write (customClause marker r [] nameForClause))
@@ -392,15 +392,15 @@ def flatRules (c : FlatCfg) (scope nameForErr nameForClause : Bytes) (v : GoVal)
 /-- `Var(src, rules...)` -/
 def varValid (ext : Ext) (fns : FnTables) (rules : List Bytes) (src : Src) : M CallOut :=
   match src with
-  | .untypedNil => pure (earlyErr (b "src is nil"))
+  | .untypedNil => pure (earlyErr (b! "src is nil"))
   | .val tstr v =>
     match v.stripPtr with
-    | none => pure (earlyErr (b "src \"" ++ tstr ++ b "\" is nil"))
+    | none => pure (earlyErr (b! "src \"" ++ tstr ++ b! "\" is nil"))
     | some rv =>
-      if !leafSupported 64 rv.typeString then pure (earlyErr (b "src no support"))
+      if !leafSupported 64 rv.typeString then pure (earlyErr (b! "src no support"))
       else
         let validNames := rmGet (rmSet [] validVarFieldName rules) validVarFieldName
-        if validNames.isEmpty then pure { main := getJoinFieldErr [] [] (b "have no set rule"), groups := [] }
+        if validNames.isEmpty then pure { main := getJoinFieldErr [] [] (b! "have no set rule"), groups := [] }
         else do
           let c : FlatCfg := { ext := ext, fns := fns, supportsGroups := false,
                                requiredViolated := fun v =>
@@ -412,7 +412,7 @@ def varValid (ext : Ext) (fns : FnTables) (rules : List Bytes) (src : Src) : M C
 /-! ### `Map` -/
 
 def mapGetKey (pre key : Bytes) : Bytes :=
-  if pre.isEmpty && key.isEmpty then [] else if key.isEmpty then pre ++ b "map" else pre ++ b "map[" ++ key ++ [93]
+  if pre.isEmpty && key.isEmpty then [] else if key.isEmpty then pre ++ b! "map" else pre ++ b! "map[" ++ key ++ [93]
 
 /-- sorted rule keys of an `RM` (`sortedRuleKeys`): byte-wise order, empty key dropped -/
 def bytesLt : Bytes → Bytes → Bool
@@ -449,12 +449,12 @@ def mapEntries (c : FlatCfg) (rm : RM) (pre : Bytes) : Entries → WSt → M WSt
 def mapValidate (c : FlatCfg) (rm : RM) (pre : Bytes) (tv : GoVal) (st : WSt) : M WSt :=
   match tv with
   | .map _ keyIsString _ es =>
-    if !keyIsString then pure (st.write (getJoinFieldErr [] pre (b "map key must string")))
+    if !keyIsString then pure (st.write (getJoinFieldErr [] pre (b! "map key must string")))
     else do
       let present ← es.toList.mapM fun (k, _) => match k with | .str s => pure s | _ => throw (.unmodelled "non-string map key")
       let st0 := st.write (missingClauses rm present (mapGetKey pre))
       mapEntries c rm pre es st0
-  | _ => pure (st.write (getJoinFieldErr [] pre (b "val must map")))
+  | _ => pure (st.write (getJoinFieldErr [] pre (b! "val must map")))
 
 def mapElems (c : FlatCfg) (rm : RM) (i : Nat) : GoVals → WSt → M WSt
   | .nil, st => pure st
@@ -465,14 +465,14 @@ def mapElems (c : FlatCfg) (rm : RM) (i : Nat) : GoVals → WSt → M WSt
 /-- `Map(src, ruleObj)` / `MapFn` -/
 def mapValid (ext : Ext) (fns : FnTables) (rm : RM) (src : Src) : M CallOut :=
   match src with
-  | .untypedNil => pure (earlyErr (b "src is nil"))
+  | .untypedNil => pure (earlyErr (b! "src is nil"))
   | .val tstr v =>
-    if rm.isEmpty then pure (earlyErr (b "have no set rules"))
+    if rm.isEmpty then pure (earlyErr (b! "have no set rules"))
     else
       let c : FlatCfg := { ext := ext, fns := fns, supportsGroups := true,
                            requiredViolated := fun v => v.isZero, isEmpty := fun v => v.isZero }
       match v.stripPtr with
-      | none => pure (earlyErr (b "src \"" ++ tstr ++ b "\" is nil"))
+      | none => pure (earlyErr (b! "src \"" ++ tstr ++ b! "\" is nil"))
       | some (.slice _ _ _ es) => do finish (← mapElems c rm 0 es {})
       | some (.array _ _ es) => do finish (← mapElems c rm 0 es {})
       | some tv => do finish (← mapValidate c rm [] tv {})
@@ -514,14 +514,14 @@ inductive UrlSrc where
 
 def urlValid (ext : Ext) (fns : FnTables) (rm : RM) (src : UrlSrc) : M CallOut :=
   match src with
-  | .untypedNil => pure (earlyErr (b "src is nil"))
-  | .nilPtr => pure (earlyErr (b "src \"*string\" is nil"))
-  | .notString => pure (earlyErr (b "src must is string/*string"))
+  | .untypedNil => pure (earlyErr (b! "src is nil"))
+  | .nilPtr => pure (earlyErr (b! "src \"*string\" is nil"))
+  | .notString => pure (earlyErr (b! "src must is string/*string"))
   | .str s =>
     match queryUnescape s with
     | none => do
       let t ← askExt ext (.unescapeerr s)     -- residual: text of url.EscapeError
-      finish (({} : WSt).write (getJoinFieldErr [] [] (b "url unescape is failed, err: " ++ t.text)))
+      finish (({} : WSt).write (getJoinFieldErr [] [] (b! "url unescape is failed, err: " ++ t.text)))
     | some dec =>
       let query : Bytes := match Bytes.indexByte? 63 dec with
         | some i => dec.drop (i + 1)
